@@ -14,6 +14,7 @@ EXPLANATION = (
     "reads is in a whitelist of deterministic, process-independent operations (R3); the whole dump reaches the digest through an "
     "injective, total text->bytes step (R4/R5)."
     " (R6) list-typed fields of constructed nodes hold real lists; (R7) a captured constant only changes the hash if it reached the AST: the capture snapshot rules of C04 (closure and all module globals, none filtered out) are re-evaluated."
+    " (R10) callable, text and ast forms of one lambda give one AST: capture binders and membership (C04.R1/R3) and conversion-free constants (C13.R2) are re-evaluated; a digest source other than ast.dump is a finding."
 )
 NOT_DECIDED = "injectivity of ast.dump on structure and collision resistance of the digest (trusted stdlib / cryptographic assumption)."
 
